@@ -21,6 +21,7 @@ OP_COST = 0.0002      # virtual seconds consumed by one OS call
 class VirtualClock(object):
     def __init__(self, start=1000.0):
         self.now = start
+        self.on_sleep = None
 
     def time(self):
         # reading the clock takes time too: guarantees progress of busy-wait loops that sleep(0)
@@ -30,6 +31,8 @@ class VirtualClock(object):
     def sleep(self, d):
         if d and d > 0:
             self.now += d
+        if self.on_sleep is not None:
+            self.on_sleep(d)
 
     def tick(self):
         self.now += OP_COST
@@ -47,6 +50,9 @@ class Env(object):
         self.ops = 0
         self.op_limit = 200000
         self.connect_script = []       # exceptions to raise on successive connects (None = succeed)
+        if sched is not None:
+            # sleeping is a pre-emption point too (backoff between retries, RTU silent interval)
+            self.clock.on_sleep = lambda d: self.record('sleep', None) if d and d >= 0.05 else None
 
     def record(self, op, detail=None):
         self.ops += 1
